@@ -15,7 +15,7 @@ type corpusCase struct {
 	note string
 }
 
-func st(fs ...Field) *Ty { return &Ty{K: TStruct, F: fs} }
+func st(fs ...Field) *Ty       { return &Ty{K: TStruct, F: fs} }
 func fa(n string, t *Ty) Field { return Field{Name: n, Kind: "attr", T: t} }
 func fo(n string, t *Ty) Field { return Field{Name: n, Kind: "optional", T: t} }
 func fb(n string, t *Ty) Field { return Field{Name: n, Kind: "block", T: t} }
@@ -23,10 +23,10 @@ func fl(n string) Field        { return Field{Name: n, Kind: "label", T: tyStrin
 func fr(t *Ty) Field           { return Field{Name: "", Kind: "remain", T: t} }
 
 // spec helpers (see valToSpec)
-func hx(s string) any    { return hex.EncodeToString([]byte(s)) }
-func in(n int64) any     { return strconv.FormatInt(n, 10) }
-func some(x any) any     { return []any{x} }
-func li(xs ...any) any   { return append([]any{}, xs...) }
+func hx(s string) any        { return hex.EncodeToString([]byte(s)) }
+func in(n int64) any         { return strconv.FormatInt(n, 10) }
+func some(x any) any         { return []any{x} }
+func li(xs ...any) any       { return append([]any{}, xs...) }
 func kv(k string, v any) any { return []any{hx(k), v} }
 
 func mk(t *Ty, spec any, note string) corpusCase {
@@ -103,4 +103,44 @@ func corpus() []corpusCase {
 	kw := st(fa("for", tyInt), fa("if", tyBool), fb("null", sliceOf(st(fa("true", tyString)))))
 	cs = append(cs, mk(kw, li(in(1), true, li(li(hx("t")))), "keyword names"))
 	return cs
+}
+
+type nonWFCase struct {
+	t       *Ty
+	v       reflect.Value
+	texts   []string
+	note    string
+	skipEnc bool // encode behaviour outside wf_schema that the model does not reproduce
+}
+
+// struct types gohcl panics on (outside wf_schema): where exactly, and where not
+func nonWFCorpus() []nonWFCase {
+	mkn := func(t *Ty, spec any, texts []string, note string) nonWFCase {
+		c := mk(t, spec, note)
+		return nonWFCase{c.t, c.v, texts, note, false}
+	}
+	noEnc := func(c nonWFCase) nonWFCase { c.skipEnc = true; return c }
+	inner := st(fa("x", tyInt))
+	lint := st(Field{Name: "l", Kind: "label", T: tyInt}, fo("y", tyInt))
+	return []nonWFCase{
+		// attribute of struct type: no cty.Type -> panic when written / when present
+		mkn(st(fa("a", inner), fo("b", tyString)), li(li(in(1)), hx("s")), []string{"a = 1\n", "b = \"x\"\n", "a = {x = 1}\n"}, "attr of struct type"),
+		mkn(st(fo("a", ptrTo(inner))), li(nil), []string{"", "a = null\n"}, "optional *struct attr, nil: skipped before the panic"),
+		mkn(st(fa("a", sliceOf(inner))), li(li()), []string{"a = []\n"}, "attr of []struct type"),
+		// label field that is not a string: reflect.Set panics when a block has labels
+		// (encode writes the label as fmt's "%!s(int=7)": not modelled)
+		noEnc(mkn(st(fb("b", sliceOf(lint))), li(li(li(in(7), in(1)))), []string{"", "b \"x\" {}\n", "b {}\n"}, "int label field")),
+		// two remain fields: getFieldTags panics
+		mkn(st(fa("a", tyString), fr(mapOf(tyString)), fr(mapOf(tyString))), li(hx("s"), nil, nil), []string{"a = \"x\"\n"}, "two remain fields"),
+		mkn(st(fb("b", sliceOf(st(fr(mapOf(tyString)), fr(mapOf(tyInt)))))), li(li(li(nil, nil))), []string{"", "b {}\n"}, "two remain fields in a block struct"),
+		// block field that is not a struct
+		mkn(st(fb("b", sliceOf(tyInt))), li(li(in(1))), []string{"", "b {}\n"}, "block of []int"),
+		// (encode happens to accept *[]struct, decode panics; the model reports both as panics)
+		noEnc(mkn(st(fb("b", ptrTo(sliceOf(inner)))), li(some(li(li(in(1))))), []string{"", "b {}\n"}, "block of *[]struct")),
+		// remain field that is neither struct nor map
+		mkn(st(fa("a", tyString), fr(tyString)), li(hx("s"), hx("")), []string{"a = \"x\"\n"}, "remain of string type"),
+		mkn(st(fa("a", tyString), fr(sliceOf(tyString))), li(hx("s"), nil), []string{"a = \"x\"\n"}, "remain of slice type"),
+		// remain of struct type: accepted (wf, but not round-trippable)
+		mkn(st(fa("a", tyString), fr(st(fa("q", tyInt), fb("z", sliceOf(inner))))), li(hx("s"), li(in(1), nil)), []string{"a = \"x\"\n", "a = \"x\"\nq = 3\nz {\n x = 1\n}\n", "a = \"x\"\nq = 3\nw = 1\n"}, "remain of struct type"),
+	}
 }
